@@ -899,6 +899,14 @@ CURATED_WITH_FLAT = [
      "{[#k]([#l][#n])[#m]}.{#k=[$x][#k1][#k2][$y],#l=[$x][#l1][$z],#m=[$y][#m1],#n=[$z][#n1][#n2]}", False),
     ("{[#U]([#V])[#T]}.{#U=[#p][>][#q][$][#r][$k],#V=[$][#c][#d][<],#T=[$][#t]}.{#p=[$pq]C[$pd],#q=[$pq]N([$qr])[$qt],#r=[$qr]O,#c=[$cd]S,#d=[$cd]C[$pd],#t=[$qt]F}",
      "{[#p]([#d][#c])[#q]([#t])[#r]}.{#p=[$pq]C[$pd],#q=[$pq]N([$qr])[$qt],#r=[$qr]O,#c=[$cd]S,#d=[$cd]C[$pd],#t=[$qt]F}", True),
+    # an intermediate definition with a multiplier followed by a bead that carries the descriptor
+    ("{[#A0][#B0]}.{#A0=[#P]|2[#Q][>],#B0=[<][#R]}.{#P=[$]CC[$],#Q=[$]CO[$a],#R=[$a]N}",
+     "{[#P]|2[#Q][#R]}.{#P=[$]CC[$],#Q=[$]CO[$a],#R=[$a]N}", True),
+    # ring label 0, and a ring label used again after its ring was closed, in intermediate definitions
+    ("{[#A0][#B0]}.{#A0=[#P]0[#Q][#R]0[>],#B0=[<][#S]}.{#P=[$]C[$],#Q=[$]C[$],#R=[$]C([$])[$b],#S=[$b]O}",
+     "{[#P]1[#Q][#R]1[#S]}.{#P=[$]C[$],#Q=[$]C[$],#R=[$]C([$])[$b],#S=[$b]O}", True),
+    ("{[#A0]}.{#A0=[#P]0[#Q][#R]0[#S]0[#T][#U]0}.{#P=[$][#p][$],#Q=[$][#q][$],#R=[$][#r][$][$],#S=[$][#s][$][$],#T=[$][#t][$],#U=[$][#u][$]}",
+     "{[#P]1[#Q][#R]1[#S]2[#T][#U]2}.{#P=[$][#p][$],#Q=[$][#q][$],#R=[$][#r][$][$],#S=[$][#s][$][$],#T=[$][#t][$],#U=[$][#u][$]}", False),
 ]
 
 
